@@ -58,4 +58,12 @@ func registerProps() {
 		Rule:   resumeRule + "; then 1-2 storage damages applied to the state left behind (sidecar truncated at a drawn length, single bit flipped, garbage, well-formed all-complete sidecar of another size / chunk size / id, stale all-complete sidecar, .tmp leftover, data file deleted or shortened with the sidecar present, highest marked chunk torn), then a healthy resumed run: identical tree or a loud failure, never success with a different tree",
 		Real: txReal, Stub: txStub, Assume: txAssume,
 	})
+	reg(&propDef{
+		ID: "C07", Pkg: "internal/transfer", Level: "exploration",
+		Quick: 4000, Thorough: 150000, QuickWall: 5 * time.Minute, ThorWall: 30 * time.Minute,
+		Rule:   "each run = the real RecvManifestMultiStream against a scripted sender over SimNet whose framing is well-formed but whose manifest.root, directory rel_path, file rel_path, item id or FileBegin.rel_path (1-2 fields per run) carry hostile strings (parent references, absolute paths into the sandbox, smuggled separators, NUL, backslashes, the resume-metadata directory) next to benign controls; both root-dir modes, resume on/off, seeded segmentation and schedule; the output directory sits in a per-run sandbox with decoy files; non-trivial = more than 20 scheduling steps, distinct by decision-log hash",
+		Real:   []string{"internal/transfer.RecvManifestMultiStream and everything below it (instrumented copy of the current working tree)", "OS file system behind the interposition layer (every path the receiver touches is logged)"},
+		Stub:   []string{"sender: byte script built with the repo's encoders (FileBegin hand-encoded because the encoder validates paths)", "QUIC: SimNet"},
+		Assume: []string{"hostile strings come from a fixed pool of escape patterns (input generation is plain seeded generation; the simulator contributes the peer, sandbox accounting and schedule)", "Unix path semantics"},
+	})
 }
